@@ -168,7 +168,7 @@ class CaseResult:
         return self.undecided is None and not self.failed
 
 
-def _stage_injected(unit, work, specs_key='inject', lenient_loops=False):
+def _stage_injected(unit, work, specs_key='inject', lenient_loops=False, lenient_ghost=False):
     """Write injected copies of /repo files into work/overlay; return report."""
     overlay = os.path.join(work, 'overlay')
     os.makedirs(overlay, exist_ok=True)
@@ -194,7 +194,7 @@ def _stage_injected(unit, work, specs_key='inject', lenient_loops=False):
             raise Undecided('%s: source %s missing' % (unit.name, rel))
         text = open(src, errors='replace').read()
         try:
-            new, rep = inj.inject(text, specs, unit.meta.get('ghost_calls', ()), lenient_loops=lenient_loops)
+            new, rep = inj.inject(text, specs, unit.meta.get('ghost_calls', ()), lenient_loops=lenient_loops, lenient_ghost=lenient_ghost)
         except inj.InjectError as e:
             raise Undecided('%s: injection anchor failed in %s: %s' % (unit.name, rel, e))
         for r in rep:
@@ -272,7 +272,7 @@ SOLVER_FLAGS = {
 }
 
 
-def run_case(unit, case, tier, work, extra_defines=(), witness=False, want_trace=False):
+def run_case(unit, case, tier, work, extra_defines=(), witness=False, want_trace=False, fallback=False):
     """Full pipeline for one parameter case.  witness=True: concretisation run
     (no loop contracts, -DWITNESS_MODE, small sizes, unwinding, trace)."""
     res = CaseResult(unit, case)
@@ -283,7 +283,12 @@ def run_case(unit, case, tier, work, extra_defines=(), witness=False, want_trace
         # witness mode keeps the injected ghost statements (the co-simulation must run there
         # too); the injected loop-contract clauses are simply not applied (no
         # --apply-loop-contracts), so the loops are unwound instead
-        overlay, report = _stage_injected(unit, work, lenient_loops=witness)
+        # fallback run of a unit whose witness-mode assertions do not depend on ghost state ('fallback': 'ghost-free'):
+        # ghost statements whose anchors are gone are dropped too and -DVC_FALLBACK tells the harness to skip ghost-dependent asserts
+        gfree = fallback and unit.meta.get('fallback') == 'ghost-free'
+        overlay, report = _stage_injected(unit, work, lenient_loops=witness, lenient_ghost=gfree)
+        if gfree:
+            extra_defines = tuple(extra_defines) + ('VC_FALLBACK=1',)
         res.inject_report = report
         defines = ['-D' + GUARD, '-DVC_CBMC'] + (['-DVC_THOROUGH=1'] if tier == 'thorough' else [])
         for k, v in sorted(case.items()):
@@ -523,7 +528,7 @@ def native_replay(unit, case, witness_vals, work, extra_defines=()):
     m = unit.meta
     # the native build uses the same injected/extracted copy (ghost statements run natively,
     # contract clauses are defined away by cprover_native.h)
-    overlay, _ = _stage_injected(unit, work, lenient_loops=True)
+    overlay, _ = _stage_injected(unit, work, lenient_loops=True, lenient_ghost=('VC_FALLBACK=1' in extra_defines))
     exe = os.path.join(work, 'replay')
     cmd = ['clang', '-g', '-O0', '-fsanitize=address,undefined', '-fno-sanitize-recover=undefined',
            '-fno-builtin', '-w',
